@@ -155,6 +155,37 @@ pub struct FlatW {
     pub item: MultiRef<WithAttrs>,
 }
 
+/// a value of another namespace, flattened into a holder: its own namespace declarations must reach the holder's start tag
+#[derive(Debug, Default, Clone, PartialEq, YaSerialize, YaDeserialize)]
+#[yaserde(prefix = "q", namespaces = {"q" = "urn:other"}, rename = "Addr")]
+pub struct Addr {
+    #[yaserde(rename = "kind", attribute = true)]
+    pub kind: String,
+    #[yaserde(prefix = "q", rename = "street")]
+    pub street: String,
+}
+impl CheckRestrictions for Addr {
+    fn check_restrictions(&self, r: Option<Rc<Restrictions>>) -> SoapResult<()> {
+        self.street.check_restrictions(r)
+    }
+}
+#[derive(Debug, Default, YaSerialize, YaDeserialize)]
+#[yaserde(prefix = "p", namespaces = {"p" = "urn:probe"}, rename = "Flat2")]
+pub struct Flat2B {
+    #[yaserde(rename = "tag", attribute = true)]
+    pub tag: String,
+    #[yaserde(flatten = true)]
+    pub item: Addr,
+}
+#[derive(Debug, Default, YaSerialize, YaDeserialize)]
+#[yaserde(prefix = "p", namespaces = {"p" = "urn:probe"}, rename = "Flat2")]
+pub struct Flat2W {
+    #[yaserde(rename = "tag", attribute = true)]
+    pub tag: String,
+    #[yaserde(flatten = true)]
+    pub item: MultiRef<Addr>,
+}
+
 struct Rng(u64);
 impl Rng {
     fn next(&mut self) -> u64 {
@@ -223,6 +254,26 @@ macro_rules! probe {
             if !std::sync::Arc::ptr_eq(&*w, &*c) {
                 $out.push(format!("DIFF {} case={case} clone does not share the value", $name));
             }
+            // ... also when the clone is made through `clone_from` (directly, and as an element of a Vec / an Option that is overwritten)
+            let mut c2 = MultiRef::new(<$t>::default());
+            c2.clone_from(&w);
+            *$n += 1;
+            if !std::sync::Arc::ptr_eq(&*w, &*c2) {
+                $out.push(format!("DIFF {} case={case} clone_from onto an unshared value does not share the source", $name));
+            }
+            let mut dst = vec![MultiRef::new(<$t>::default()), MultiRef::new(<$t>::default())];
+            let src = vec![w.clone()];
+            dst.clone_from(&src);
+            *$n += 1;
+            if dst.len() != 1 || !std::sync::Arc::ptr_eq(&*w, &*dst[0]) {
+                $out.push(format!("DIFF {} case={case} Vec::clone_from does not share the values", $name));
+            }
+            let mut od = Some(MultiRef::new(<$t>::default()));
+            od.clone_from(&Some(w.clone()));
+            *$n += 1;
+            if !od.as_ref().is_some_and(|x| std::sync::Arc::ptr_eq(&*w, &**x)) {
+                $out.push(format!("DIFF {} case={case} Option::clone_from does not share the value", $name));
+            }
             // as a field (scalar, repeated, optional)
             let more: Vec<$t> = (0..$rng.below(3)).map(|_| $gen).collect();
             let maybe: Option<$t> = if $rng.below(2) == 0 { None } else { Some($gen) };
@@ -265,6 +316,20 @@ pub fn run(seed: u64, cases: u64) -> std::process::ExitCode {
             let a = yaserde::de::from_str::<FlatB>(&xml).map(|x| format!("{x:?}").replace("FlatB", "F"));
             let b = yaserde::de::from_str::<FlatW>(&xml).map(|x| format!("{x:?}").replace("FlatW", "F"));
             cmp("flattened", case, "de", format!("{a:?}"), format!("{b:?}"), &mut out, &mut n);
+        }
+    }
+    // flattened member of another namespace (the member's namespace declarations travel through serialize_attributes)
+    for case in 0..cases {
+        let v = Addr { kind: rng.string(), street: rng.string() };
+        let tag = rng.string();
+        let fb = Flat2B { tag: tag.clone(), item: v.clone() };
+        let fw = Flat2W { tag, item: MultiRef::new(v) };
+        let sb = yaserde::ser::to_string(&fb);
+        cmp("flattened-other-namespace", case, "ser", format!("{sb:?}"), format!("{:?}", yaserde::ser::to_string(&fw)), &mut out, &mut n);
+        if let Ok(xml) = sb {
+            let a = yaserde::de::from_str::<Flat2B>(&xml).map(|x| format!("{x:?}").replace("Flat2B", "F"));
+            let b = yaserde::de::from_str::<Flat2W>(&xml).map(|x| format!("{x:?}").replace("Flat2W", "F"));
+            cmp("flattened-other-namespace", case, "de", format!("{a:?}"), format!("{b:?}"), &mut out, &mut n);
         }
     }
     // self-referential trees
